@@ -122,7 +122,7 @@ func c03oKind(n *xhtml.Node, c c03oCtx) byte {
 // the minifier removes `<script></script>` / `<style></style>` when they are (or, after dropping a default `type`,
 // `media`, become) attribute-less.  Such elements are ignored on both sides.
 func c03oEmptyRaw(n *xhtml.Node) bool {
-	if n.Namespace != "" || (n.Data != "script" && n.Data != "style") || n.FirstChild != nil {
+	if n.Namespace != "" || (n.Data != "script" && n.Data != "style") || n.FirstChild != nil && !c03oSubMode {
 		return false
 	}
 	for _, a := range n.Attr {
@@ -599,6 +599,30 @@ func c03oCompare(in, out []byte, o c03oOpts) string {
 
 // c03oCompareDocs compares the two byte strings exactly as they are.
 func c03oCompareDocs(in, out []byte, o c03oOpts) string {
+	return c03oCompareDocsX(in, out, o, false)
+}
+
+// c03oCompareSub: like c03oCompare, but the text inside script and style elements is not compared (it went through a
+// sub-minifier); where these elements start and end, and everything outside them, is.
+func c03oCompareSub(in, out []byte, o c03oOpts) string {
+	if !c03oHasDoctype(in) {
+		in = append([]byte("<!doctype html>"), in...)
+		out = append([]byte("<!doctype html>"), out...)
+	}
+	return c03oCompareDocsX(in, out, o, true)
+}
+
+// c03oSubMode (set only while c03oCompareSub runs; the stages run one after the other): the content of script/style
+// went through a sub-minifier and may have become empty, so an inline script / style element without src and id is
+// ignored on both sides whatever its content is.  Text, elements and attributes outside them are compared as always:
+// content that leaks out of such an element, or a following part of the page that it swallows, is a difference.
+var c03oSubMode bool
+
+func c03oCompareDocsX(in, out []byte, o c03oOpts, ignoreSubRaw bool) string {
+	if ignoreSubRaw {
+		c03oSubMode = true
+		defer func() { c03oSubMode = false }()
+	}
 	flat := func(b []byte) ([]c03oItem, error) {
 		doc, err := xhtml.ParseWithOptions(bytes.NewReader(b), xhtml.ParseOptionEnableScripting(false))
 		if err != nil {
@@ -606,6 +630,16 @@ func c03oCompareDocs(in, out []byte, o c03oOpts) string {
 		}
 		var items []c03oItem
 		c03oFlatten(doc, c03oCtx{}, &items)
+		if ignoreSubRaw {
+			kept := items[:0]
+			for _, it := range items {
+				if it.k == 'r' && it.n != nil && (it.n.Data == "script" || it.n.Data == "style") {
+					continue
+				}
+				kept = append(kept, it)
+			}
+			items = kept
+		}
 		return c03oNormalise(items), nil
 	}
 	a, err := flat(in)
